@@ -308,6 +308,79 @@ fn run_boundaries(cx: &mut CaseCx, _case: &Value) {
   cx.sample(json!({"scalar_values": cands.iter().map(|c| c.0).collect::<Vec<_>>(), "json_failure_points": want1.len()}));
 }
 
+
+/// loads in sequence on one thread: a valid key, then every single-byte variant of it - each result must reflect
+/// ITS OWN input (canonical re-serialisation) or be an error; special points survive their JSON form
+fn run_load_sequences(cx: &mut CaseCx, _case: &Value) {
+  cx.entropy(670);
+  let server = pp::Server::new(vec![1, 2, 9]).expect("server");
+  let pkb = server.get_public_key().serialize_to_bincode().expect("pk");
+  let (blinded, _) = pp::Client::blind(b"x");
+  let prb = server.eval(&blinded, 1, true).unwrap().proof.unwrap().serialize_to_bincode().unwrap();
+  for (what, base) in [("public key", &pkb), ("proof", &prb)] {
+    let is_pk = what == "public key";
+    let load = |b: &[u8]| -> Result<Option<Vec<u8>>, String> {
+      if is_pk {
+        guard(|| pp::ServerPublicKey::load_from_bincode(b).ok().and_then(|k| k.serialize_to_bincode().ok()))
+      } else {
+        guard(|| pp::ProofDLEQ::load_from_bincode(b).ok().and_then(|k| k.serialize_to_bincode().ok()))
+      }
+    };
+    for off in 0..base.len() {
+      for flt in ["^01", "^80", "+1"] {
+        let mut b2 = base.to_vec();
+        b2[off] = match flt {
+          "^01" => b2[off] ^ 1,
+          "^80" => b2[off] ^ 0x80,
+          _ => b2[off].wrapping_add(1),
+        };
+        // first the valid encoding, then the variant, then the valid one again
+        let r1 = load(base);
+        let r2 = load(&b2);
+        let r3 = load(base);
+        cx.eval();
+        cx.nontrivial(fnv(&b2) ^ is_pk as u64);
+        let d = || json!({"what": what, "offset": off, "fault": flt});
+        if r1 != Ok(Some(base.to_vec())) || r3 != Ok(Some(base.to_vec())) {
+          cx.viol("C15/load-depends-on-history", format!("the valid {} no longer loads to itself after a variant of it was loaded on the same thread", what), d());
+          return;
+        }
+        match r2 {
+          Err(p) => cx.viol("C15/load-panicked", p, d()),
+          Ok(None) => cx.count("variants_refused", 1),
+          Ok(Some(re)) => {
+            // bincode ignores trailing bytes (a smaller entry count leaves some): an accepted variant must
+            // re-serialise to its own bytes or a prefix of them - never to anything else
+            if !b2.starts_with(&re) {
+              cx.viol("C15/load-depends-on-history", format!("a {} that differs from the previously loaded one in byte {} was loaded as {} (serialize(load(b)) is not a prefix of b)", what, off, if re == *base { "the PREVIOUS value" } else { "something else" }), d());
+              return;
+            }
+            cx.count("variants_loaded_faithfully", 1);
+          }
+        }
+      }
+    }
+  }
+  // special points through their JSON form
+  use curve25519_dalek::constants::RISTRETTO_BASEPOINT_POINT as G;
+  for (name, bytes) in [("the neutral element", [0u8; 32]), ("the base point", G.compress().to_bytes()), ("an ordinary point", *blinded.as_bytes())] {
+    let p = pp::Point::from(&bytes[..]);
+    cx.eval();
+    match serde_json::to_string(&p).ok().and_then(|js| serde_json::from_str::<pp::Point>(&js).ok()) {
+      Some(p2) if p2 == p => cx.count("special_points_roundtrip", 1),
+      _ => cx.viol("C15/point-json-differs", format!("{} does not survive its JSON form", name), json!({"point": name})),
+    }
+    // and as the output of an evaluation (base64 form)
+    let ev = pp::Evaluation { output: pp::Point::from(&bytes[..]), proof: None };
+    match serde_json::to_string(&ev).ok().and_then(|js| serde_json::from_str::<pp::Evaluation>(&js).ok()) {
+      Some(e2) if e2.output == ev.output => cx.count("special_points_roundtrip", 1),
+      _ => cx.viol("C15/evaluation-json-differs", format!("an evaluation whose output is {} does not survive its JSON form", name), json!({"point": name})),
+    }
+    // and inside a public key (binary form)
+  }
+  cx.outcome("load sequences");
+}
+
 fn run_limits(cx: &mut CaseCx, _case: &Value) {
   cx.entropy(700);
   let server = pp::Server::new((0..=255u8).collect()).expect("server");
@@ -413,6 +486,13 @@ pub fn spec() -> PropSpec {
         gen: |_| vec![json!({})],
         run: run_boundaries,
         min_counts: &[("scalars_accepted", 8), ("scalars_refused", 8), ("failure_points_checked", 50)],
+      },
+      Check {
+        name: "load-sequences",
+        rule: "history on one thread: load(valid), load(variant), load(valid) for EVERY single-byte variant (3 faults per offset) of a public key and of a proof: the valid one always loads to itself, an accepted variant re-serialises to its own bytes or a prefix of them (bincode ignores trailing bytes), never to a previously loaded value; the neutral element, the base point and an ordinary point survive the JSON forms of Point and Evaluation",
+        gen: |_| vec![json!({})],
+        run: run_load_sequences,
+        min_counts: &[("variants_refused", 10), ("variants_loaded_faithfully", 100), ("special_points_roundtrip", 6)],
       },
       Check {
         name: "limits-and-truncations",
